@@ -32,8 +32,8 @@ class Attribute(dict):
     """This class holds the tags's attributes."""
 
     def __getitem__(self, key: str) -> str:
-        """If self doesn't have the key it returns ''."""
-        return self.get(key, "")
+        """If self doesn't have the key, or it has no value, it returns ''."""
+        return self.get(key) or ""
 
     @property
     def classes(self) -> list[str]:
